@@ -232,32 +232,30 @@ Proof.
   rewrite cstr_of_cs by apply Hs. rewrite IH by exact Fs. reflexivity.
 Qed.
 
-(* ---------------- the oracle theorem for every scenario whose value clause is proved, the pairing clause for all *)
+(* ---------------- the value clause of the repeat, padding and sequence scenarios; the pairing clause of all scenarios *)
 Lemma expected_scn_ok s : expected_scn s <> VErr.
 Proof. destruct s; cbn [expected_scn]; try discriminate. apply expected_ok. Qed.
-Lemma eval_expected_scn s : valid_scn s = true -> value_proved s = true -> eval_scn s = expected_scn s.
+Lemma eval_repeat a k : nonul a = true -> eval_scn (SRepeat a k) = expected_scn (SRepeat a k).
 Proof.
-  destruct s; cbn [valid_scn value_proved eval_scn expected_scn]; intros V P; try discriminate P.
-  - apply eval_expected. exact V.
-  - unfold cs. rewrite newRepeat_ok by (apply nonul_NN; exact V). cbn [vstr].
-    change (t_concat_rep a k ++ [0]) with (t_concat_rep a k ++ 0 :: []). rewrite cstr_of_cs by (apply NN_concat_rep, nonul_NN; exact V). reflexivity.
-  - split_valid V. destruct (chr_ok _ V0) as [Z B]. pose proof (OKS_nonul a V) as Ka. pose proof (OKS_nonul b V1) as Kb.
-    unfold cs. rewrite (pad_ok a [] b [] ch) by (try apply Ka; try apply Kb; exact Z). cbn [bind]. rewrite pad_bufs_cs. cbn [fst snd vlist].
-    destruct (OKS_pad a b ch Ka Kb Z B) as [P1 P2].
-    change [cs (fst (t_pad a b ch)); cs (snd (t_pad a b ch))] with (map cs [fst (t_pad a b ch); snd (t_pad a b ch)]).
-    rewrite cstrs_cs by (constructor; [exact P1 | constructor; [exact P2 | constructor]]). reflexivity.
-  - change pool0 with (map cs [[]; []; []]).
-    destruct (mrun_ok ops [[]; []; []]) as [E F]; [repeat (constructor; [apply OKS_nil|]); constructor | exact V |]. rewrite E. cbn [vlist]. rewrite cstrs_cs by exact F. reflexivity.
+  intro V. cbn [eval_scn expected_scn]. unfold cs. rewrite newRepeat_ok by (apply nonul_NN; exact V). cbn [vstr].
+  change (t_concat_rep a k ++ [0]) with (t_concat_rep a k ++ 0 :: []). rewrite cstr_of_cs by (apply NN_concat_rep, nonul_NN; exact V). reflexivity.
+Qed.
+Lemma eval_pad a b ch : valid_scn (SPad a b ch) = true -> eval_scn (SPad a b ch) = expected_scn (SPad a b ch).
+Proof.
+  cbn [valid_scn eval_scn expected_scn]. intro V. split_valid V. destruct (chr_ok _ V0) as [Z B]. pose proof (OKS_nonul a V) as Ka. pose proof (OKS_nonul b V1) as Kb.
+  unfold cs. rewrite (pad_ok a [] b [] ch) by (try apply Ka; try apply Kb; exact Z). cbn [bind]. rewrite pad_bufs_cs. cbn [fst snd vlist].
+  destruct (OKS_pad a b ch Ka Kb Z B) as [P1 P2].
+  change [cs (fst (t_pad a b ch)); cs (snd (t_pad a b ch))] with (map cs [fst (t_pad a b ch); snd (t_pad a b ch)]).
+  rewrite cstrs_cs by (constructor; [exact P1 | constructor; [exact P2 | constructor]]). reflexivity.
+Qed.
+Lemma eval_seq ops : forallb valid_sop ops = true -> eval_scn (SSeq ops) = expected_scn (SSeq ops).
+Proof.
+  intro V. cbn [eval_scn expected_scn]. change pool0 with (map cs [[]; []; []]).
+  destruct (mrun_ok ops [[]; []; []]) as [E F]; [repeat (constructor; [apply OKS_nil|]); constructor | exact V |].
+  rewrite E. cbn [vlist]. rewrite cstrs_cs by exact F. reflexivity.
 Qed.
 Lemma pairing_scn_ok s : pairing_scn s = true.
 Proof. destruct s; cbn [pairing_scn]; try reflexivity; [apply pairing_ok | apply pad_paired]. Qed.
-Lemma scn_meets_spec s : valid_scn s = true -> value_proved s = true -> spec_scn s (run_scn s) = true.
-Proof.
-  intros V P. unfold spec_scn, run_scn. cbn [o_val o_ref o_paired]. rewrite (eval_expected_scn s V P), pairing_scn_ok.
-  rewrite oval_eqb_refl by apply expected_scn_ok. reflexivity.
-Qed.
-Lemma scn_safe s : valid_scn s = true -> value_proved s = true -> o_val (run_scn s) <> VErr.
-Proof. intros V P. cbn. rewrite (eval_expected_scn s V P). apply expected_scn_ok. Qed.
 (* the scenarios of C13_Model.v are scenarios of this language with the same observation and the same oracle *)
 Lemma scn_embeds o : run_scn (SOp o) = run o /\ valid_scn (SOp o) = valid o /\ forall ob, spec_scn (SOp o) ob = spec o ob.
 Proof. split; [reflexivity | split; [reflexivity | intro ob; reflexivity]]. Qed.
